@@ -555,6 +555,7 @@ pub fn family(name: &str, tier: Tier) -> Vec<Scenario> {
                                 files: vec![f1.clone(), f2.clone()],
                                 order: ord,
                                 salt: 0,
+                                foreign: false,
                             }],
                         });
                     }
@@ -649,6 +650,68 @@ pub fn family(name: &str, tier: Tier) -> Vec<Scenario> {
                 let atoms: Vec<u8> = w.iter().flat_map(|&b| blocks[b as usize].iter().copied()).collect();
                 v.push(Scenario {
                     family: "F9".into(),
+                    sessions: vec![SessionSpec::seq(vec![base.clone()]), SessionSpec::seq(vec![FileSpec::new(&atoms, 0, Feed::Whole)])],
+                });
+            }
+        },
+        // a second client sharing the store and the shard cache: the first session (this client) makes the cached
+        // shard manager live, the second is run by the other client, the third (this client again) re-uploads or
+        // recombines what the other client stored and has to find it in the shared cache
+        "F10" => {
+            let l = tier.pick(2, 3);
+            for w0 in [vec![5u8], vec![]] {
+                for w1 in words(3, l) {
+                    if w1.is_empty() {
+                        continue;
+                    }
+                    let mut thirds: Vec<Vec<u8>> = vec![w1.clone()];
+                    let mut ext = w1.clone();
+                    ext.push(6);
+                    thirds.push(ext);
+                    let mut pre = vec![7u8];
+                    pre.extend(w1.iter().copied());
+                    thirds.push(pre);
+                    for w2 in thirds {
+                        let mut other = SessionSpec::seq(vec![FileSpec::new(&w1, 0, Feed::Whole)]);
+                        other.foreign = true;
+                        v.push(Scenario {
+                            family: "F10".into(),
+                            sessions: vec![SessionSpec::seq(vec![FileSpec::new(&w0, 2, Feed::Whole)]), other, SessionSpec::seq(vec![FileSpec::new(&w2, 0, Feed::Whole)])],
+                        });
+                    }
+                }
+            }
+        },
+        // like F9, with a fresh atom and a long stored run among the blocks: a locally refused range (fresh atom +
+        // short stored run, seen twice) can then have a tail that the shard index knows as the start of a longer run
+        "F9b" => {
+            let base = FileSpec::new(&[0, 1, 2, 3, 4, 5, 6], 0, Feed::Whole);
+            let blocks: [&[u8]; 7] = [&[0, 1], &[2, 3, 4], &[5, 6], &[0], &[3], &[7], &[0, 1, 2, 3, 4]];
+            let l = tier.pick(5, 6);
+            for w in words(7, l) {
+                if w.len() < 3 || !w.iter().any(|b| *b == 5) {
+                    continue;
+                }
+                let atoms: Vec<u8> = w.iter().flat_map(|&b| blocks[b as usize].iter().copied()).collect();
+                v.push(Scenario {
+                    family: "F9b".into(),
+                    sessions: vec![SessionSpec::seq(vec![base.clone()]), SessionSpec::seq(vec![FileSpec::new(&atoms, 0, Feed::Whole)])],
+                });
+            }
+        },
+        // deeper words over four blocks only (long stored run, fresh atom, short stored run, another stored run): reaches
+        // e.g. L L x ab x L, where the local range [x a b] is refused and the stored run starting at a is accepted
+        "F9c" => {
+            let base = FileSpec::new(&[0, 1, 2, 3, 4, 5, 6], 0, Feed::Whole);
+            let blocks: [&[u8]; 4] = [&[0, 1, 2, 3, 4], &[7], &[0, 1], &[5, 6]];
+            let l = tier.pick(6, 7);
+            for w in words(4, l) {
+                if w.len() < 4 || !w.iter().any(|b| *b == 1) {
+                    continue;
+                }
+                let atoms: Vec<u8> = w.iter().flat_map(|&b| blocks[b as usize].iter().copied()).collect();
+                v.push(Scenario {
+                    family: "F9c".into(),
                     sessions: vec![SessionSpec::seq(vec![base.clone()]), SessionSpec::seq(vec![FileSpec::new(&atoms, 0, Feed::Whole)])],
                 });
             }
@@ -754,6 +817,7 @@ pub fn family(name: &str, tier: Tier) -> Vec<Scenario> {
                                 files: vec![FileSpec::new(&w, tail, Feed::Whole)],
                                 order: vec![],
                                 salt,
+                                foreign: false,
                             }],
                         });
                     }
